@@ -38,6 +38,7 @@ def run(chk):
         "how in {inner,left,full}, hazard-table rows, sequence / key-set terms and rejection-rule instances."
     )
     chk.rule("R1", "right-column suffixing is independent of set order and only stops when no suffixed name collides")
+    chk.rule("R1s", "shape of the suffix search: counter loop re-checks every right name, final suffix carries the counter, three rename sites")
     chk.rule("R2", "how -> join kind: Polars passes how/validate through; SQL isouter <=> how != inner, full <=> how == full")
     chk.rule("R3", "right input's WHERE: inner -> WHERE, left -> ON, full -> asserted empty")
     chk.rule("R4", "subquery guards for Join exist (hazard-table rows)")
@@ -59,15 +60,15 @@ def run(chk):
     for w in loops:
         t = norm(w.test)
         good = good or ("for name in right_names" in t and "any(" in t and "suffix" in t and any(isinstance(s, ast.AugAssign) and norm(s.target) == "cnt" for s in w.body))
-    chk.ob("R1", vb, join, "suffix counter increases while any suffixed right name is a left name", good,
+    chk.ob("R1s", vb, join, "suffix counter increases while any suffixed right name is a left name", good,
            "the numeric suffix search does not re-check every right name against the left names for the final counter: "
            "a right column can end up with the name of a left column")  # fmt: skip
     # the suffix actually used for renaming includes the counter
-    chk.ob("R1", vb, join, "final suffix includes the counter", any(isinstance(s, ast.AugAssign) and norm(s.target) == "suffix" and "cnt" in norm(s.value) for s in ast.walk(join)),
+    chk.ob("R1s", vb, join, "final suffix includes the counter", any(isinstance(s, ast.AugAssign) and norm(s.target) == "suffix" and "cnt" in norm(s.value) for s in ast.walk(join)),
            "the counter found by the collision search is not appended to the suffix")  # fmt: skip
     ren = [c for c in calls_in(join) if dotted(c.func) == "rename"]
     ok = len(ren) == 3 and all("col.name + " in norm(c) for c in ren) and sum("user_suffix" in norm(c) for c in ren) == 1
-    chk.ob("R1", vb, join, "right columns are renamed to name + suffix (3 rename sites: user suffix, clashing only, all)", ok,
+    chk.ob("R1s", vb, join, "right columns are renamed to name + suffix (3 rename sites: user suffix, clashing only, all)", ok,
            "the right table is not renamed with `name + suffix` in all three suffix cases")  # fmt: skip
 
     # ---- R2
